@@ -262,6 +262,9 @@ def r3_location_codes(idx, r):
         t = b.test
         if isinstance(t, ast.Compare) and isinstance(t.ops[0], ast.Eq) and norm(t.left) == "lt":
             accepted[idx.fold(m, t.comparators[0])] = ("eq", b)
+        elif isinstance(t, ast.Compare) and isinstance(t.ops[0], ast.In) and norm(t.left) == "lt" and isinstance(t.comparators[0], (ast.Tuple, ast.List, ast.Set)):
+            for e in t.comparators[0].elts:
+                accepted[idx.fold(m, e)] = ("eq", b)
         elif isinstance(t, ast.Call) and call_attr(t) == "startswith" and norm(t.func.value) == "lt":
             accepted[idx.fold(m, t.args[0])] = ("prefix", b)
         else:
